@@ -373,12 +373,13 @@ Core(mode, t, p) ==
 Holds(mode, t, p) ==
   IF p.op = "switch"
   THEN Core(mode, t, p) \/ (p.hasdef /\ ArgVal(t, p.def).ok /\ \A i \in 1..Len(p.cases) : ~Holds(mode, t, p.cases[i][1]))
-  ELSE IF p.op = "check" THEN TGet(t, p.sub, 1).ok /\ (Core(mode, t, p) \/ p.hasdef)
+  ELSE IF p.op = "check" THEN       \* its default is evaluated against the value the conditions were applied to
+    LET g == TGet(t, p.sub, 1) IN g.ok /\ (Core(mode, t, p) \/ (p.hasdef /\ ArgVal(g.v, p.def).ok))
   ELSE Core(mode, t, p) \/ (HasDef(p) /\ ArgVal(t, p.def).ok)
 
 \* the value a passing evaluation yields (meaningful only where Holds)
 Denotes(mode, t, p) ==
-  IF HasDef(p) /\ ~Core(mode, t, p) THEN (IF p.op = "check" THEN p.def ELSE ArgVal(t, p.def).v)
+  IF HasDef(p) /\ ~Core(mode, t, p) THEN ArgVal(IF p.op = "check" THEN TGet(t, p.sub, 1).v ELSE t, p.def).v
   ELSE IF p.op \in {"lit", "type", "regex", "m", "mtruthy", "msub", "msubt", "not", "check"} THEN t
   ELSE IF p.op = "pred" THEN (IF mode = "match" THEN t ELSE PredRet(p.name, t).v)
   ELSE IF p.op = "tget" THEN TGet(t, p.steps, 1).v
@@ -529,7 +530,12 @@ EvCheck(t0, p) ==
       others == CheckHolds(t, [p EXCEPT !.validate = SelectSeq(p.validate, LAMBDA v : PredRet(v.name, t).ok),
                                         !.types = IF p.types = <<>> /\ p.inst = <<>> /\ p.vals = <<>> THEN <<PyType(t)>> ELSE @])
   IN IF CheckHolds(t, p) THEN (IF Mutant = "check_returns_subtarget" THEN Pass(t, <<>>, p.sub = <<>>) ELSE Pass(t0, <<>>, TRUE))
-     ELSE IF p.hasdef /\ ~(Mutant = "check_default_ignored" /\ raising /\ others) THEN Pass(p.def, <<>>, FALSE)
+     \* (mutant check_validator_default_raw: the historic behaviour -- when only a validator failed the
+     \* default object was returned as it stands, not evaluated as an argument value)
+     ELSE IF p.hasdef /\ Mutant = "check_validator_default_raw" /\ CheckHolds(t, [p EXCEPT !.validate = <<>>,
+                  !.types = IF p.types = <<>> /\ p.inst = <<>> /\ p.vals = <<>> THEN <<PyType(t)>> ELSE @])
+       THEN Pass(p.def, <<>>, FALSE)
+     ELSE IF p.hasdef /\ ~(Mutant = "check_default_ignored" /\ raising /\ others) THEN EvDefault(t, p.def, <<>>)
      ELSE Fail({"CheckError"}, <<>>)
 
 \* one target item against the alternatives of a list / set / frozenset pattern, in order
@@ -703,7 +709,7 @@ CtorTable ==
 RECURSIVE PoisonDefaults(_)
 PoisonDefaults(p) ==
   LET each(sq) == [i \in 1..Len(sq) |-> PoisonDefaults(sq[i])]
-      own == IF p.op \in {"and", "or", "match", "switch", "optional"} /\ p.hasdef THEN [p EXCEPT !.def = Poisoned(@)] ELSE p
+      own == IF p.op \in {"and", "or", "match", "switch", "check", "optional"} /\ p.hasdef THEN [p EXCEPT !.def = Poisoned(@)] ELSE p
   IN IF p.op \in {"and", "or", "not"} THEN [own EXCEPT !.c = each(@)]
      ELSE IF p.op = "match" THEN [own EXCEPT !.sub = PoisonDefaults(@)]
      ELSE IF p.op = "switch" THEN [own EXCEPT !.cases = [i \in 1..Len(@) |-> <<PoisonDefaults(@[i][1]), PoisonDefaults(@[i][2])>>]]
